@@ -1309,7 +1309,8 @@ def rebatched_args(
     return
 
   if not num_columns:
-    first_batch = mit.first(tuples)
+    if (first_batch := mit.first(tuples, None)) is None:
+      return
     tuples = mit.prepend(first_batch, tuples)
     num_columns = len(first_batch)
     logging.debug('chainable: %s', f'rebatched_tuples: {num_columns=}')
